@@ -8,3 +8,19 @@ package align
 //@ global Left immutable -- alignment value, only copied and compared
 //@ global Right immutable -- alignment value, only copied and compared
 //@ global Center immutable -- alignment value, only copied and compared
+
+//@ func (*propertyKey).String
+//@   tags C09
+//@   requires p != nil
+//@   assigns nothing
+//@   ensures true
+
+//@ func (alignSimple).isAlignment
+//@   tags C09
+//@   assigns nothing
+//@   ensures true
+
+//@ func TestingInvalidAlignment
+//@   tags C09
+//@   assigns nothing
+//@   ensures result != nil
